@@ -1,7 +1,8 @@
 (* C19 - property theorems only.  Statements are about the Mech models of stdlib/std/map.cb
    (Model.v), queue.cb and vector.cb (LinkedModel.v); proofs are in the lemma files. *)
-From Coq Require Import ZArith List Bool Permutation.
-From Cb Require Import C19.Model C19.AvlInv C19.AvlRefine C19.Log C19.MapLog.
+From Coq Require Import ZArith List Bool Permutation Sorted.
+From Cb Require Import C19.Model C19.LinkedModel C19.AvlInv C19.AvlRefine C19.Log C19.MapLog
+  C19.QueueProofs C19.SortProofs C19.VectorProofs C19.World.
 Import ListNotations.
 Local Open Scope Z_scope.
 
@@ -91,3 +92,71 @@ Example map_example :
   m_run_res ops map_init = [RUnit; RUnit; RUnit; RUnit; RUnit; RUnit; RInt 40; RInt 3; RInt 4] /\
   elements (root (m_run ops map_init)) = [(1, 10); (3, 30); (4, 40); (5, 50)].
 Proof. vm_compute. split; reflexivity. Qed.
+
+(* ---------------------------------------------------------------- Queue<T> *)
+
+(* Refinement: the pointer-level queue (heap of nodes, front/rear/length) returns, for every history,
+   exactly what a FIFO list returns; the heap always represents that list (chain from front, rear =
+   last node) and length = number of live elements. *)
+Theorem queue_refines_fifo : forall ops,
+  q_run_res ops queue_init = qs_run_res ops [] /\
+  exists ns, qrep (q_run ops queue_init) ns /\ nvals ns = qs_run ops [] /\
+             qlength (q_run ops queue_init) = Z.of_nat (length (qs_run ops [])).
+Proof. exact queue_refines_fifo_l. Qed.
+Print Assumptions queue_refines_fifo.
+
+Theorem queue_each_node_freed_once : forall ops,
+  replay [] (q_run_log ops queue_init ++ q_dtor_log (q_run ops queue_init)) = Some [].
+Proof. exact queue_log_sound. Qed.
+Print Assumptions queue_each_node_freed_once.
+
+(* ---------------------------------------------------------------- Vector<T> *)
+
+(* Refinement: the doubly linked list with front/back/length (push/pop at both ends, at, find,
+   delete_at, sort/smaller/greater, clear) returns, for every history, what the list Spec returns; the
+   heap always represents that list in both directions; length = number of live elements. *)
+Theorem dlist_refines_list : forall ops,
+  v_run_res ops vector_init = vs_run_res ops [] /\
+  exists ns, vrep (v_run ops vector_init) ns /\ nvals ns = vs_run ops [] /\
+             vlength (v_run ops vector_init) = Z.of_nat (length (vs_run ops [])).
+Proof. exact dlist_refines_list_l. Qed.
+Print Assumptions dlist_refines_list.
+
+(* the Spec's sort (the same bottom-up merge as the code, on values) yields the sorted permutation *)
+Theorem sort_is_sorted_permutation : forall l,
+  (Sorted (fun x y => x <= y) (s_sort z_le l) /\ Permutation (s_sort z_le l) l) /\
+  (Sorted (fun x y => x >= y) (s_sort z_ge l) /\ Permutation (s_sort z_ge l) l).
+Proof. intros. split; [apply s_sort_le_sorted_perm|apply s_sort_ge_sorted_perm]. Qed.
+Print Assumptions sort_is_sorted_permutation.
+
+(* one sort step at pointer level: same nodes, relinked; values = sorted values *)
+Theorem vector_sort_relinks_same_nodes : forall s ns, vrep s ns ->
+  exists ns', vrep (v_sort s z_le) ns' /\ nvals ns' = s_sort z_le (nvals ns) /\
+              Permutation (nids ns') (nids ns).
+Proof. intros. apply vrep_sort; [exact z_le_total|assumption]. Qed.
+Print Assumptions vector_sort_relinks_same_nodes.
+
+Theorem vector_each_node_freed_once : forall ops,
+  replay [] (v_run_log ops vector_init ++ v_dtor_log (v_run ops vector_init)) = Some [].
+Proof. exact vector_log_sound. Qed.
+Print Assumptions vector_each_node_freed_once.
+
+(* ---------------------------------------------------------------- several containers *)
+
+(* In a program that interleaves operations on several containers (of any kinds), the state and the
+   results of container i are those of running the operations addressed to i alone. *)
+Theorem containers_independent : forall ops w i c, nth_error w i = Some c ->
+  nth_error (w_run ops w) i = Some (c_run (proj_ops i ops) c) /\
+  proj_res i (w_run_res ops w) = c_run_res (proj_ops i ops) c.
+Proof. exact world_independent. Qed.
+Print Assumptions containers_independent.
+
+Example vector_example :
+  let ops := [VPushBack 5; VPushFront 4; VPushBack 1; VPushBack 4; VSort; VAt 0; VAt 3; VDeleteAt 1; VFind 5; VGreater; VAt 0; VLength] in
+  v_run_res ops vector_init =
+  [RUnit; RUnit; RUnit; RUnit; RUnit; RInt 1; RInt 5; RUnit; RInt 2; RUnit; RInt 5; RInt 3].
+Proof. vm_compute. reflexivity. Qed.
+Example queue_example :
+  q_run_res [QPush 7; QPush 8; QPop; QTop; QSize; QPop; QPop; QEmpty] queue_init =
+  [RUnit; RUnit; RInt 7; RInt 8; RInt 1; RInt 8; RInt 0; RBool true].
+Proof. vm_compute. reflexivity. Qed.
